@@ -142,3 +142,8 @@ void m4ri_dd_mzp(char const *function, char const *file, int line, mzp_t const *
 }
 
 #endif
+
+#if !__M4RI_DEBUG_DUMP && defined(M4RI_VERIF)
+/* verification hook H0 (guard M4RI_VERIF), see debug_dump.h */
+void (*m4ri_verif_dd)(char const *function, int line) = 0;
+#endif
